@@ -2165,20 +2165,22 @@ stop_case(long idx)
 	if (variant == 8) {
 		// the application stops the device, sees the aio complete, and
 		// shuts the library down at once (nothing else is open)
-		nng_socket a = sk_open(fm->rep_raw, 8, NULL), b = sk_open(fm->req_raw, 8, NULL);
-		dev_start(&dev, a, b);
-		if (vf_chance(&r, 1, 2)) {
-			vf_usleep((int) vf_below(&r, 500));
+		for (int rep = 0; rep < 8; rep++) {
+			nng_socket a = sk_open(fm->rep_raw, 8, NULL), b = sk_open(fm->req_raw, 8, NULL);
+			dev_start(&dev, a, b);
+			if (vf_chance(&r, 1, 2)) {
+				vf_usleep((int) vf_below(&r, 500));
+			}
+			vf_pt_target(NNI_VP_MTX_LOCK, (int) vf_range(&r, 50, 400), 50, (int) vf_range(&r, 200, 1500));
+			dev_stop(&dev, ctx);
+			vf_nng_fini("C13");
+			vf_pt_off();
+			vf_nng_init(4, 2, 2);
+			pc_next          = 0;
+			cases_since_init = 0;
+			vf_stat("fini_right_after_stop", 1);
 		}
-		vf_pt_target(NNI_VP_MTX_LOCK, (int) vf_range(&r, 50, 400), 50, (int) vf_range(&r, 200, 1500));
-		dev_stop(&dev, ctx);
-		vf_nng_fini("C13");
-		vf_pt_off();
-		vf_nng_init(4, 2, 2);
-		pc_next          = 0;
-		cases_since_init = 0;
 		vf_class("stop/%s/%s", vname[variant], fm->name);
-		vf_stat("fini_right_after_stop", 1);
 		vf_stat("cases", 1);
 		vf_stat("stop_cases", 1);
 		return;
